@@ -276,8 +276,72 @@ def case_mh(c):
     return out
 
 
+def case_enum(c):
+    """ALL sequences of random decisions: depth-first over the decision tree of create_genotype.  A scripted
+    source replays a prefix of answers; when it runs out at a request randint(lo, hi) the prefix is extended by
+    every value of [lo, hi] (replay-and-branch).  Returns the distinct programs and the outcome counts."""
+    import json
+
+    mod, classes = load_decl(c["decl"])
+    canon = Canon(classes)
+    rg = guarded(lambda: extract(c["decl"], classes))
+    if "exc" in rg:
+        return {"phase": "extract", "res": rg}
+    g = rg["ok"]
+    from geneticengine.representations.tree.treebased import TreeBasedRepresentation
+
+    probe = guarded(lambda: mk_decider(c["decider"], ScriptedSource([]), g))
+    if "exc" in probe:
+        return {"phase": "validate", "res": probe}
+    limit, width = c.get("limit", 20000), c.get("width", 40)
+    programs, order, errors = {}, [], {}
+    leaves = runs = 0
+    truncated = None
+    stack = [[]]
+    while stack:
+        tape = stack.pop()
+        runs += 1
+        if runs > limit:
+            truncated = "limit"
+            break
+        src = ScriptedSource(tape)
+        try:
+            tree = TreeBasedRepresentation(g, mk_decider(c["decider"], src, g)).create_genotype(src)
+            res = ("ok", tree)
+        except RecursionError:
+            res = ("exc", "RecursionError")
+        except BaseException as e:  # noqa: B902
+            if isinstance(e, (KeyboardInterrupt, SystemExit)):
+                raise
+            res = ("exc", type(e).__name__)
+        last = src.log[-1] if src.log else None
+        if last is not None and last[3] is None and src.pos >= len(tape):
+            lo, hi = last[1], last[2]            # the decision the prefix did not answer: branch over every answer
+            if hi - lo + 1 > width:
+                truncated = "width"
+                break
+            for v in range(hi, lo - 1, -1):
+                stack.append(tape + [("i", v)])
+            continue
+        leaves += 1
+        if res[0] == "ok":
+            if src.pos != len(tape):
+                truncated = "unused answers"
+                break
+            cv = canon(res[1])
+            key = json.dumps(cv)
+            if key not in programs:
+                programs[key] = cv
+                order.append(tape)
+        else:
+            errors[res[1]] = errors.get(res[1], 0) + 1
+    return {"phase": "create", "programs": list(programs.values()), "tapes": [[d[1] for d in t] for t in order], "leaves": leaves, "runs": runs,
+            "errors": errors, "truncated": truncated}
+
+
 def handler(p):
-    return [guarded(lambda: (case_create if c["op"] == "create" else case_mh)(c)) for c in p["cases"]]
+    ops = {"create": case_create, "mh": case_mh, "enum": case_enum}
+    return [guarded(lambda: ops.get(c["op"], case_mh)(c)) for c in p["cases"]]
 
 
 if __name__ == "__main__":
